@@ -205,6 +205,15 @@ def mutate(rng, kind_hint=None):
     return name, (base[:pos] + q + base[pos:]).encode("utf-8"), kind
 
 
+def py_parses(data: bytes) -> bool:
+    import ast
+    try:
+        ast.parse(data)
+        return True
+    except BaseException:  # noqa: BLE001  (SyntaxError, ValueError, RecursionError, MemoryError)
+        return False
+
+
 def run_cmd(proj: Path, cmd: str, faillog: Path):
     r = run_cmd_once(proj, cmd, faillog, TIMEOUT)
     if r["timeout"]:
@@ -382,6 +391,8 @@ def run(tier: str, seed: int, st: core.ProofStatus) -> core.Result:
             # --- appended extreme code must not cost the ordinary part of the same file its findings, except for the rules that
             #     recorded a failure on this file (those are judged above / by the known findings)
             bo = runs.get("base_only")
+            if bo and name.endswith(".py") and not py_parses(data):
+                bo = None       # CPython itself rejects the file (too many nested parentheses ...): nothing of it is analysable, and no rule failed
             if bo and bo.get("violations") is not None and w["violations"] is not None and not w["timeout"]:
                 failed_rules = {fl["rule"].split(".")[0] for fl in w["fails"] if Path(fl["file"]).name == Path(name).name}
                 n_base_lines = base_only[0][1].count(b"\n") + 1
